@@ -38,6 +38,7 @@ type Fault struct {
 	Records int    `json:"records,omitempty"`
 	CT      string `json:"content_type,omitempty"`
 	Body    []byte `json:"-"` // overrides the origin-tagged body
+	GapUS   int    `json:"gap_us,omitempty"` // pause between the body writes
 }
 
 func (f Fault) String() string {
@@ -59,6 +60,7 @@ type Attempt struct {
 	Wrote     int             `json:"body_bytes_written"` // body bytes the script actually wrote
 	Completed bool            `json:"completed"`
 	Status    int             `json:"status"`
+	Nonce     string          `json:"nonce,omitempty"`
 }
 
 type FW struct {
@@ -69,6 +71,7 @@ type FW struct {
 	attempts []*Attempt
 	counter  []atomic.Int64
 	Cases    int
+	perNonce map[string][]Fault // per-request fault assignments (concurrent mode)
 }
 
 type Opt struct {
@@ -128,11 +131,15 @@ func (f *FW) Close() {
 }
 
 func (f *FW) answer(i int, r *backend.Record) *backend.Resp {
+	nonce := nonceOf(r.RawQuery)
 	f.mu.Lock()
 	ft := f.faults[i]
+	if fs, ok := f.perNonce[nonce]; ok {
+		ft = fs[i]
+	}
 	f.mu.Unlock()
 	a := int(f.counter[i].Add(1))
-	at := &Attempt{Backend: i, Attempt: a, Rec: r}
+	at := &Attempt{Backend: i, Attempt: a, Rec: r, Nonce: nonce}
 	n := ft.Records
 	if n == 0 {
 		n = 40
@@ -188,10 +195,68 @@ func (f *FW) answer(i int, r *backend.Record) *backend.Resp {
 	if len(resp.Body) > 64 {
 		resp.Writes = []int{len(resp.Body)/3 + 1, len(resp.Body)/3 + 1, len(resp.Body)}
 	}
+	if ft.GapUS > 0 {
+		resp.Gap = time.Duration(ft.GapUS) * time.Microsecond
+		if len(resp.Body) > 1024 {
+			resp.Writes = nil
+			for n := 0; n < len(resp.Body); n += len(resp.Body)/8 + 1 {
+				resp.Writes = append(resp.Writes, len(resp.Body)/8+1)
+			}
+		}
+	}
 	f.mu.Lock()
 	f.attempts = append(f.attempts, at)
 	f.mu.Unlock()
 	return resp
+}
+
+func nonceOf(rawQuery string) string {
+	for _, kv := range strings.Split(rawQuery, "&") {
+		if strings.HasPrefix(kv, "nonce=") {
+			return kv[len("nonce="):]
+		}
+	}
+	return ""
+}
+
+// SetFor installs a fault assignment that applies only to the request carrying this nonce,
+// so that requests with different scripts can be in flight at the same time.
+func (f *FW) SetFor(nonce string, fs []Fault) {
+	f.mu.Lock()
+	if f.perNonce == nil {
+		f.perNonce = map[string][]Fault{}
+	}
+	f.perNonce[nonce] = append([]Fault(nil), fs...)
+	f.mu.Unlock()
+}
+
+// Send posts one request carrying the nonce and returns what the client saw; attempts are
+// collected later with Collect (after every sender has finished and the backends are idle).
+func (f *FW) Send(hc *http.Client, nonce string, path string) *client.Result {
+	if path == "" {
+		path = "/olla/proxy/v1/chat/completions"
+	}
+	body := []byte(fmt.Sprintf(`{"model":"mall","nonce":%q}`, nonce))
+	req, _ := http.NewRequest("POST", f.W.Base+path+"?nonce="+nonce, bytes.NewReader(body))
+	req.Header.Set("Content-Type", "application/json")
+	return client.Do(hc, req)
+}
+
+// Collect waits for the backends to go idle and returns every attempt since the last
+// Set/Collect grouped by nonce.
+func (f *FW) Collect() map[string][]*Attempt {
+	for _, b := range f.B {
+		b.WaitIdle(3 * time.Second)
+	}
+	f.mu.Lock()
+	defer f.mu.Unlock()
+	out := map[string][]*Attempt{}
+	for _, a := range f.attempts {
+		out[a.Nonce] = append(out[a.Nonce], a)
+	}
+	f.attempts = nil
+	f.perNonce = nil
+	return out
 }
 
 // Set installs the fault assignment for the next case ("refuse" closes the listener).
